@@ -47,3 +47,18 @@ show("fix-dotexp", surf, "1 so 837.+1", lambda s: repr(s.surface_constants))
 show("main-F6", data, "e4 5 3i 0", lambda d: repr([n.value for n in d._tree["data"]]))
 show("main-F7", data, "tr1 0 2r", lambda d: repr(list(d.displacement_vector)))
 show("main-F7", data, "tr5 1 2 3 1 j j j 1 j j j 1 1", lambda d: repr(list(d.rotation_matrix)))
+# round 3: the nine remaining findings, repaired (one fix: commit each)
+show("fix-F1", cell, "1 0 -1 imp:u=1")
+show("fix-F1", data, "mode n u", lambda m: repr(sorted(p.value for p in m.particles)))
+show("fix-F2", data, "mode v c", lambda m: repr(sorted(p.value for p in m.particles)))
+show("fix-F2", cell, "1 0 -1 ext:c 1")
+show("fix-F3", cell, "1 0 -1 tmp1=1 tmp2=2", lambda c: repr(list(c.parameters.nodes)[:2]))
+show("fix-F4", surf, "1 ky 2 0.5m 1", lambda s: repr(s.surface_constants))
+show("fix-F5", data, "vol 2 2m", lambda d: repr([n.value for n in d._tree["data"]]))
+show("fix-F8", data, "m1 1001.80c 1 elib=03e", lambda m: repr(m.format_for_mcnp_input((6, 2, 0))))
+show("fix-F9", data, "m1 6012.70c 1 8017 1", lambda m: repr(m.format_for_mcnp_input((6, 2, 0))))
+show("fix-F10", data, "sdef")
+show("fix-F11", data, "f4:n ( 2 3)")
+show("fix-paren", cell, "1 0 -1 fill=1 ( 2 )", lambda c: repr(c.fill.old_transform_number))
+show("fix-paren", cell, "1 0 -1 trcl=( 1 2 3)")
+show("fix-compl", cell, "1 0 (1:2)#3", lambda c: str(c.geometry))
